@@ -152,6 +152,60 @@ func c05Main(args []string) int {
 		b.WriteString(";\n")
 		b.WriteString(mk(append([]int{0}, ids...), ids, d2))
 	}
+	// OLVM flows: protected by the account nonce as well, so even re-encodings must be refused
+	if *only == "" || strings.HasPrefix(*only, "OLVM") {
+		for _, flow := range []string{"OLVM_TRANSFER", "OLVM_DRAIN_REFUND"} {
+			l := newLab(0)
+			w := l.W
+			in := &BlockIn{Absent: map[int]bool{}}
+			var base []byte
+			e := w.Eth[0]
+			if flow == "OLVM_DRAIN_REFUND" {
+				// an account that holds exactly value + 21000*price sends everything (balance 0, nonce 1),
+				// is paid again in a later block, and its old transaction is resubmitted
+				e = c17Key(77)
+				l.Rep.RunBlock(&BlockIn{Txs: [][]byte{txSend(w.Users[0], e.Addr, oltAmt("5000021000000000000"), l.memo())}, Absent: map[int]bool{}})
+				to := w.Users[1].Addr
+				base = txOLVM(e, &to, 0, "5000000000000000000", 21000, nil)
+			} else {
+				to := w.Users[1].Addr
+				base = txOLVM(e, &to, 0, "1000000000000", 30000, nil)
+			}
+			kr := c05Kind{Kind: flow, Base: hx(base)}
+			l.Rep.BeginBlock(in)
+			v0 := l.Rep.View()
+			res := l.Rep.DeliverTx(base)
+			kr.BaseCode = res.Code
+			kr.BaseEffect = len(diffKeys(v0, l.Rep.View())) > 0
+			l.Rep.EndBlock()
+			l.Rep.Commit()
+			if res.Code == 0 {
+				if flow == "OLVM_DRAIN_REFUND" {
+					l.Rep.RunBlock(&BlockIn{Txs: [][]byte{txSend(w.Users[0], e.Addr, oltAmt("9000000000000000000"), l.memo())}, Absent: map[int]bool{}})
+				}
+				subs := append([]labMutant{{"identical", "same", base}}, reencodings(base, r)...)
+				l.Rep.RunBlock(in)
+				l.Rep.BeginBlock(in)
+				for _, sb := range subs {
+					c := l.Rep.CheckTx(sb.Tx)
+					va := l.Rep.View()
+					d := l.Rep.DeliverTx(sb.Tx)
+					ch := diffKeys(va, l.Rep.View())
+					sr := c05Sub{Name: sb.Name, SameParsed: sameParsed(sb.Tx, base), CheckCode: c.Code, CheckDup: strings.Contains(c.Log, "duplicated tx"),
+						Deliver: d.Code, Effect: len(ch) > 0, Tx: hx(sb.Tx)}
+					if len(ch) > 6 {
+						ch = ch[:6]
+					}
+					sr.Changed = ch
+					kr.Subs = append(kr.Subs, sr)
+				}
+				l.Rep.EndBlock()
+				l.Rep.Commit()
+			}
+			l.Rep.Close()
+			rep.Kinds = append(rep.Kinds, kr)
+		}
+	}
 	b.WriteString("\n].\nDefinition MM := Eval vm_compute in replay_mismatches 0 cases.\nPrint MM.\n")
 	name := *outDir + "/c05_cases_0.v"
 	must(os.WriteFile(name, b.Bytes(), 0644))
